@@ -831,7 +831,7 @@ func (u *Unit) sentinel(name string) Term {
 	t := Term{cn, SInt}
 	u.sentinels[name] = t
 	// distinct, non-nil
-	u.fact(fmt.Sprintf("(assert (> %s 0))", cn))
+	u.fact(fmt.Sprintf("(assert (and (> %s 0) (< %s 1000000)))", cn, cn))
 	for _, on := range sortedKeys(u.sentinels) {
 		if on != name {
 			u.fact(fmt.Sprintf("(assert (not (= %s %s)))", cn, u.sentinels[on].S))
